@@ -60,11 +60,28 @@ static u64 hist_dic[3];
 static int hist_depth;
 static void hist_on_worker_start(void); static void hist_on_worker_end(void);
 static _Bool hist_is_queue(u64 o) { u64 vt = IR_LD64(o); return vt > 0x1000; }   /* continuations carry flags (small integers, DC_FLAG_*) in their first word, objects a vtable address */
+#ifdef MAINQ
+/* the thread-bound main queue: a wake-up pokes the main thread's run loop (recorded as a pending hand-off, at most one outstanding); "the worker" for it is the main thread
+   (model thread 1, the thread the queue is bound to) running the real _dispatch_main_queue_callback_4CF */
+#define MAINQ_MARK 0x4d41494eull
+void _dispatch_runloop_queue_poke(u64 dq, u32 qos, u32 flags) { ASSERT(dq == G__dispatch_main_q, "run-loop poke of the main queue");
+  for (int i = 0; i < MAXPEND; i++) if (i < npend && pend_obj[i] == MAINQ_MARK) return;
+  ASSERT(npend < MAXPEND, "harness bound: too many hand-offs outstanding"); pend_rq[npend] = 0; pend_obj[npend] = MAINQ_MARK; npend++; handoffs_total++; }
+void _dispatch_thread_override_end(u32 owner, u64 res) { }
+void dispatch_once_f(u64 pred, u64 ctxt, u64 f) { }        /* the run-loop handle of the main queue (an eventfd) is not modelled: the poke stub stands for it */
+void _dispatch_force_cache_cleanup(void) { }
+#endif
 static void run_one_worker(int which) {
   ASSERT(which >= 0 && which < npend, "worker index");
   u64 o = pend_obj[which], rq = pend_rq[which];
   for (int i = which; i + 1 < MAXPEND; i++) { pend_obj[i] = pend_obj[i + 1]; pend_rq[i] = pend_rq[i + 1]; }
   npend--;
+#ifdef MAINQ
+  if (o == MAINQ_MARK) { int me0 = ir_cur; ir_cur = 1; hist_depth++; ASSERT(hist_depth < 6, "harness bound: worker recursion depth");
+    u64 sq = IR_LD64(TSD(1) + P_OFF_tsd_queue), sf = IR_LD64(TSD(1) + P_OFF_tsd_frame); IR_ST64(TSD(1) + P_OFF_tsd_queue, 0); IR_ST64(TSD(1) + P_OFF_tsd_frame, 0);
+    _dispatch_main_queue_callback_4CF(0);
+    IR_ST64(TSD(1) + P_OFF_tsd_queue, sq); IR_ST64(TSD(1) + P_OFF_tsd_frame, sf); hist_depth--; ir_cur = me0; return; }
+#endif
   HTRACE("  [worker runs obj=%llx]\n", o); int me = ir_cur; ir_cur = 1; hist_depth++; ASSERT(hist_depth < 6, "harness bound: worker recursion depth");
   u64 save_q = IR_LD64(TSD(1) + P_OFF_tsd_queue), save_f = IR_LD64(TSD(1) + P_OFF_tsd_frame);
   IR_ST64(TSD(1) + P_OFF_tsd_queue, rq); IR_ST64(TSD(1) + P_OFF_tsd_frame, 0);
